@@ -332,6 +332,9 @@ func runMuxOn(sc *muxScenario, rec *recorder, w *recWriter) {
 					// one header object, stream id left to the muxer, handed to the calls of every stream: the id the muxer picks for
 					// one stream must not stick to the object
 					if c, ok := hdrCache[op.Hdr]; ok {
+						// the same header object as before, carrying this unit's optional header (a caller that keeps one PESHeader
+						// and hangs a fresh PESOptionalHeader on it for every unit)
+						c.OptionalHeader = hdr.OptionalHeader
 						hdr = c
 					} else {
 						hdrCache[op.Hdr] = hdr
